@@ -1,5 +1,7 @@
 /-
-Model of package `cty/json`: `marshal` (marshal.go), `unmarshal*` (unmarshal.go),
+Model of package `cty/json`: `marshal` (marshal.go), `unmarshal*` (unmarshal.go), the
+public `Unmarshal` (value.go: `unmarshalTop`, which drops the optional-attribute annotations
+of the requested type before decoding; `unmarshalDynamic` calls it for the wrapped value),
 `impliedType` (type_implied.go), `SimpleJSONValue` (simple.go), at token-tree level.
 
 TRUSTED BASE / ORACLES (nothing here is an axiom; each is a parameter or an input)
